@@ -179,6 +179,8 @@ const (
 )
 
 func Init(scheme string) bool {
+	delimiterChars = "/,:;|"
+	initialCharClass = charWhite
 	switch scheme {
 	case "default":
 		bonusBoundaryWhite = bonusBoundary + 2
